@@ -154,22 +154,27 @@ TokPos(toks) ==
                   out |-> Append(p.out, [sec |-> cur1, o |-> p.len[cur1]])]
   IN  f[Len(toks)]
 
+RSec(R, s) == SelectSeq(R.secs, LAMBDA x : x.name = s)
+RBlocks(R, s) == LET c == RSec(R, s) IN IF c = <<>> THEN <<>> ELSE c[1].blocks
+RLen(R, s) == LET c == RSec(R, s) IN IF c = <<>> THEN 0 ELSE c[1].len
+NormNode(nd) == IF nd.k = "fresh" THEN [nd EXCEPT !.id = 0] ELSE nd
+Edges(R) == Range(R.edges)
+
 \* everything the clauses need, computed once per view
 View(toks, P, R, exc) ==
   LET tp == TokPos(toks)
   IN  [toks |-> toks, P |-> P, R |-> R, exc |-> exc, pos |-> tp.out, len |-> tp.len,
-       used |-> {"text"} \cup {tp.out[i].sec : i \in DOMAIN toks}]
+       used |-> {"text"} \cup {tp.out[i].sec : i \in DOMAIN toks},
+       \* (computed once: TLC caches values, not operator applications)
+       E |-> Range(R.edges),
+       B |-> [s \in SecNames \cup {""} |-> RBlocks(R, s)]]
 
-RSec(R, s) == SelectSeq(R.secs, LAMBDA x : x.name = s)
-RBlocks(R, s) == LET c == RSec(R, s) IN IF c = <<>> THEN <<>> ELSE c[1].blocks
-RLen(R, s) == LET c == RSec(R, s) IN IF c = <<>> THEN 0 ELSE c[1].len
-BlockAt(R, s, o) == SelectSeq(RBlocks(R, s), LAMBDA b : b.o = o)
+\* blocks of section s in view V (s = "" : none)
+VB(V, s) == IF s \in DOMAIN V.B THEN V.B[s] ELSE <<>>
 \* the node description of the block of section s starting at o
-BlkNode(R, s, o) ==
-  LET c == BlockAt(R, s, o)
+BlkNodeV(V, s, o) ==
+  LET c == SelectSeq(VB(V, s), LAMBDA b : b.o = o)
   IN  [k |-> "blk", sec |-> s, o |-> o, n |-> IF c = <<>> THEN 0 - 1 ELSE Last(c).n, nm |-> "", id |-> 0]
-NormNode(nd) == IF nd.k = "fresh" THEN [nd EXCEPT !.id = 0] ELSE nd
-Edges(R) == Range(R.edges)
 
 Idx(V) == DOMAIN V.toks
 Sized(V, i) == V.toks[i].n > 0
@@ -209,7 +214,7 @@ C12_Tiling(V) ==
 
 \* the observed block that ends with token i
 EndingBlocks(V, i) ==
-  SelectSeq(RBlocks(V.R, V.pos[i].sec),
+  SelectSeq(VB(V, V.pos[i].sec),
             LAMBDA b : b.code /\ b.o <= V.pos[i].o /\ b.o + b.n = End(V, i))
 C12_TerminatorsEndBlocks(V) ==
   \A i \in Idx(V) : V.toks[i].k \in Terminators => Len(EndingBlocks(V, i)) = 1
@@ -217,14 +222,14 @@ C12_TerminatorsEndBlocks(V) ==
 \* where a direct transfer to the name l must lead
 TargetNode(V, l) ==
   LET ls == LabelIdx(V, l)
-  IN  IF ls # {} THEN LET i == CHOOSE i \in ls : TRUE IN BlkNode(V.R, V.pos[i].sec, V.pos[i].o)
+  IN  IF ls # {} THEN LET i == CHOOSE i \in ls : TRUE IN BlkNodeV(V, V.pos[i].sec, V.pos[i].o)
       ELSE IF l \in V.P.ms THEN [k |-> "mod", sec |-> "", o |-> 0, n |-> 0, nm |-> V.P.rn[l], id |-> 0]
       ELSE [k |-> "symp", sec |-> "", o |-> 0, n |-> 0, nm |-> V.P.rn[l], id |-> 0]
 FreshNode == [k |-> "fresh", sec |-> "", o |-> 0, n |-> 0, nm |-> "", id |-> 0]
 EL(t, ty, c, d) == [t |-> t, ty |-> ty, c |-> c, d |-> d]
 ExpectedOut(V, i) ==
   LET t == V.toks[i]
-      nxt == BlkNode(V.R, V.pos[i].sec, End(V, i))
+      nxt == BlkNodeV(V, V.pos[i].sec, End(V, i))
       ft == EL(nxt, "ft", FALSE, TRUE)
   IN  CASE t.k = "jmp"   -> {EL(TargetNode(V, t.l), "branch", FALSE, TRUE)}
         [] t.k = "jcc"   -> {EL(TargetNode(V, t.l), "branch", TRUE, TRUE), ft}
@@ -232,7 +237,7 @@ ExpectedOut(V, i) ==
         [] t.k = "ret"   -> {EL(FreshNode, "ret", FALSE, TRUE)}
         [] t.k = "ijmp"  -> {EL(FreshNode, "branch", FALSE, FALSE)}
         [] t.k = "icall" -> {EL(FreshNode, "call", FALSE, FALSE), ft}
-OutOf(V, nd) == {EL(NormNode(e.t), e.ty, e.c, e.d) : e \in {x \in Edges(V.R) : x.s = nd}}
+OutOf(V, nd) == {EL(NormNode(e.t), e.ty, e.c, e.d) : e \in {x \in V.E : x.s = nd}}
 ObservedOut(V, i) ==
   LET bs == EndingBlocks(V, i)
   IN  IF Len(bs) # 1 THEN {}
@@ -245,12 +250,12 @@ FreshOK(V) ==
       sp == {V.R.syms[j].nm : j \in {q \in DOMAIN V.R.syms : V.R.syms[q].k = "proxy"}}
   IN  /\ Cardinality(ids) = Len(fr)
       /\ V.R.nprox = Len(fr) + Cardinality(sp)
-      /\ \A e \in Edges(V.R) : e.s.k = "blk" /\ e.t.k # "stale"
+      /\ \A e \in V.E : e.s.k = "blk" /\ e.t.k # "stale"
 C12_EdgeShape(V) ==
   /\ \A i \in Idx(V) : V.toks[i].k \in Terminators => ObservedOut(V, i) = ExpectedOut(V, i)
   /\ FreshOK(V)
   \* nothing but fallthrough leaves a block that does not end in a transfer
-  /\ \A e \in Edges(V.R) : e.ty # "ft" =>
+  /\ \A e \in V.E : e.ty # "ft" =>
         \E i \in Idx(V) : /\ V.toks[i].k \in Terminators /\ V.pos[i].sec = e.s.sec
                           /\ End(V, i) = e.s.o + e.s.n
 
@@ -258,28 +263,28 @@ C12_EdgeShape(V) ==
 \* consecutive code blocks, exactly where control can run from one into the
 \* other
 FlowsInto(V, s, j) ==      \* into block j of section s from the block before it
-  LET bs == RBlocks(V.R, s)
+  LET bs == VB(V, s)
       p == bs[j].o
       pk == PrevKind(V, s, p)
   IN  /\ j > 1 /\ bs[j - 1].code /\ Falls(pk)
       /\ (pk \in {"jcc", "call", "icall"} \/ SplitCause(V, s, p))
 C12_Fallthrough(V) ==
-  /\ \A e \in Edges(V.R) : e.ty = "ft" =>
+  /\ \A e \in V.E : e.ty = "ft" =>
         /\ e.t.k = "blk" /\ e.t.sec = e.s.sec /\ e.t.o = e.s.o + e.s.n /\ e.s.n > 0
         /\ ~e.c /\ e.d
         /\ PrevKind(V, e.s.sec, e.t.o) \notin {"jmp", "ret", "ijmp"}
-        /\ \E j \in DOMAIN RBlocks(V.R, e.s.sec) :
-              /\ RBlocks(V.R, e.s.sec)[j].o = e.s.o /\ RBlocks(V.R, e.s.sec)[j].code
-        /\ \A j \in DOMAIN RBlocks(V.R, e.t.sec) :
-              (RBlocks(V.R, e.t.sec)[j].o = e.t.o /\ RBlocks(V.R, e.t.sec)[j].n = e.t.n)
-                  => RBlocks(V.R, e.t.sec)[j].code
+        /\ \E j \in DOMAIN VB(V, e.s.sec) :
+              /\ VB(V, e.s.sec)[j].o = e.s.o /\ VB(V, e.s.sec)[j].code
+        /\ \A j \in DOMAIN VB(V, e.t.sec) :
+              (VB(V, e.t.sec)[j].o = e.t.o /\ VB(V, e.t.sec)[j].n = e.t.n)
+                  => VB(V, e.t.sec)[j].code
   /\ \A q \in DOMAIN V.R.secs :
         LET s == V.R.secs[q].name
             bs == V.R.secs[q].blocks
         IN  \A j \in 2..Len(bs) :
               (bs[j].code /\ FlowsInto(V, s, j)
                  /\ NextKind(V, s, bs[j].o) \notin EncodedKinds) =>
-                \E e \in Edges(V.R) :
+                \E e \in V.E :
                    /\ e.ty = "ft" /\ e.s.k = "blk" /\ e.s.sec = s /\ e.s.o = bs[j - 1].o
                    /\ e.t.k = "blk" /\ e.t.sec = s /\ e.t.o = bs[j].o /\ e.t.n = bs[j].n
 
@@ -288,7 +293,7 @@ LabelOK(V, i) ==
   LET nm == ExpName(V.P, V.toks[i].l)
       s == V.pos[i].sec
       p == V.pos[i].o
-      bs == RBlocks(V.R, s)
+      bs == VB(V, s)
       c == SelectSeq(V.R.syms, LAMBDA y : y.nm = nm)
   IN  /\ Len(c) = 1
       /\ c[1].k = "blk" /\ c[1].sec = s
@@ -313,7 +318,7 @@ TransferTarget(V, s, p) ==
   \E i \in Idx(V) : /\ V.toks[i].k \in DirectKinds
                     /\ \E q \in LabelIdx(V, V.toks[i].l) : V.pos[q].sec = s /\ V.pos[q].o = p
 ExpData(V, s, j) ==
-  LET b == RBlocks(V.R, s)[j]
+  LET b == VB(V, s)[j]
   IN  /\ BytesOnly(V, s, b)
       /\ ~TransferTarget(V, s, b.o)
       /\ ~FlowsInto(V, s, j)
